@@ -81,4 +81,6 @@ THEOREMS = [
     ("DastardV.Lemmas.ComposeAbacoExcerpt", "DastardV.Compose.abaco_file_samples_are_packet_samples"),
     ("DastardV.Lemmas.ComposeAbacoExcerpt", "DastardV.Compose.streamOK_packet"),
     ("DastardV.Lemmas.ComposeAbacoExcerpt", "DastardV.Compose.excerpt_sample_of_packet"),
+    ("DastardV.Lemmas.C03Oracle", "DastardV.C03.chkFrames_iff"),
+    ("DastardV.Lemmas.C03Oracle", "DastardV.C03.chkFrames_abut"),
 ]
